@@ -27,7 +27,7 @@ RULE = ('histories of 1..7 opens (auto-detected, a few with format= named) over 
         'files written with netCDF4, the shipped uamiv / lateral_boundary / humidity / vertical_diffusivity / ffi1001 / bpch / csv / '
         'point_source / wind samples, each under a telling extension, without extension and under misleading or unknown extensions, plus '
         'empty / 2-byte / ARL-stub files; streams: random, "telling-extension opens then extension-less probes", "same file k times", '
-        'named opens interleaved, named opens of copies under novel suffixes (.grd01, .20200101, .dat, .bin) followed by auto-detected probes of the ambiguous one3d-family / netCDF files and of the same paths, malformed; the registry (names, classes, order) is compared with the initial one after every step.  Each history runs in a fresh interpreter; every step is compared with the fresh-interpreter '
+        'named opens interleaved, named opens of copies under novel suffixes (.grd01, .20200101, .dat, .bin) followed by auto-detected probes of the ambiguous one3d-family / netCDF files and of the same paths, suffixes equal to a reader name in another case (RUN1.HUMIDITY, OUT.NC, avrg.Uamiv, ioapi3.IOAPI) opened auto-detected or named before such probes, malformed; the registry (names, classes, order) is compared with the initial one after every step.  Each history runs in a fresh interpreter; every step is compared with the fresh-interpreter '
         'open of the same file and with the model replayed on the measured accept matrix.  Non-trivial = at least one step whose '
         'history contains an earlier telling-extension open whose reader claims (or chokes on) the probed file (the pattern that failed before fix C15-registry-alias).')
 TRUSTED = ['accepts(reader, file) = reader.isMine(path) measured once per file in a fresh interpreter (all readers in registry order in one '
@@ -68,6 +68,9 @@ POOL = [
     ('hum.grd01', 'humidity', 'humidity', True), ('kv.grd01', 'vertical_diffusivity', 'vertical_diffusivity', True),
     ('hum.20200101', 'humidity', 'humidity', True), ('met_kv.dat', 'vertical_diffusivity', 'vertical_diffusivity', True),
     ('temp3d', 'temperature', 'temperature', False), ('zp.bin', 'height_pressure', 'height_pressure', False),
+    # suffixes that equal a reader name in another case (not registered names: the lookup is case sensitive)
+    ('RUN1.HUMIDITY', 'humidity', 'humidity', True), ('OUT.NC', 'plain3', 'netcdf', True),
+    ('avrg.Uamiv', 'uamiv', 'uamiv', True), ('ioapi3.IOAPI', 'ioapi3', 'ioapi', True),
 ]
 POOLD = {p[0]: p for p in POOL}
 
@@ -302,6 +305,7 @@ MALFORMED = ['empty', 'short.nc', 'arlstub', 'met.wind', 'plain3.uamiv']
 ALL = [p[0] for p in POOL]
 NOVEL = ['hum.grd01', 'kv.grd01', 'hum.20200101', 'met_kv.dat', 'zp.bin', 'avrg.bin', 'plain3.dat', 'obs.ict', 'met_hum', 'met_kv', 'ioapi3']
 AMBIG = ['met_hum', 'met_kv', 'temp3d', 'zp.bin', 'hum.grd01', 'kv.grd01', 'hum.20200101', 'met_kv.dat', 'ioapi3', 'plain3', 'wrfout_d01', 'plain4']
+CASEVAR = ['RUN1.HUMIDITY', 'OUT.NC', 'avrg.Uamiv', 'ioapi3.IOAPI']
 SIBLING = {'humidity': 'vertical_diffusivity', 'vertical_diffusivity': 'humidity', 'netcdf': 'gcnc', 'ioapi': 'netcdf', 'height_pressure': 'humidity'}
 
 
@@ -329,6 +333,17 @@ def gen(rng, n, tier):
             b = rng.choice(ALL)
             steps = [dict(f=a)] * k + [dict(f=b)] + [dict(f=a)] * rng.randint(0, 2)
             steps = [dict(s) for s in steps]
+        elif r < 0.8 and rng.random() < 0.3:
+            # suffixes equal to a reader name in another case / unknown suffixes / exact reader names, auto-detected and named,
+            # then probes of the files several readers claim
+            kind = 'case-suffix'
+            for _ in range(rng.randint(1, 3)):
+                f = rng.choice(CASEVAR + CASEVAR + ['plain3.dat', 'hum.grd01', 'met.humidity', 'plain3.nc', 'avrg.uamiv'])
+                steps.append(dict(f=f, fmt=POOLD[f][2] if rng.random() < 0.25 else None))
+                if rng.random() < 0.4:
+                    steps.append(dict(f=rng.choice(AMBIG)))
+            for _ in range(rng.randint(1, 3)):
+                steps.append(dict(f=rng.choice(AMBIG + CASEVAR)))
         elif r < 0.8 and rng.random() < 0.6:
             # named opens of files under novel suffixes (true format, or a sibling format that reads the same layout),
             # interleaved with auto-detected probes of the ambiguous files and of the very paths opened by name before
@@ -587,6 +602,33 @@ def translate():
         ok = ('reader = getreader(*args, format=format, **kwds)' in srcs and 'reader = getreaderdict()[format]' in srcs
               and 'outfile = reader(*args, **kwds)' in srcs)
     ob('pncopen: auto -> getreader, named -> getreaderdict()[format], then reader(*args, **kwds) (Auto / Named steps)', ok, 'body changed')
+    MUT = ('insert', 'append', 'extend', 'pop', 'remove', 'sort', 'reverse', 'clear', '__setitem__', '__delitem__', '__iadd__')
+    for fname in ('getreader', 'pncopen', 'pncmfopen', 'getreaderdict', 'testreader'):
+        fn = fns.get(fname)
+        if fn is None:
+            ob('%s: present' % fname, False, 'function missing')
+            continue
+        bad = []
+        for n in ast.walk(fn):
+            if isinstance(n, ast.Call):
+                f_ = un(n.func)
+                if f_ in ('registerreader', '_getreader.registerreader') or f_.endswith('.registerreader'):
+                    bad.append(un(n)[:80])
+                if isinstance(n.func, ast.Attribute) and n.func.attr in MUT and un(n.func.value) in ('_readers', 'globals()["_readers"]', "globals()['_readers']"):
+                    bad.append(un(n)[:80])
+            tg = []
+            if isinstance(n, ast.Assign):
+                tg = n.targets
+            elif isinstance(n, (ast.AugAssign, ast.AnnAssign)):
+                tg = [n.target]
+            elif isinstance(n, ast.Delete):
+                tg = n.targets
+            for t_ in tg:
+                for sub in ast.walk(t_):
+                    if isinstance(sub, ast.Name) and sub.id == '_readers':
+                        bad.append(un(n)[:80])
+        ob('%s: contains no registry-mutating call or statement (registerreader / _readers.insert|append|extend|pop|remove|sort|reverse|clear / '
+           'assignment to _readers or _readers[...])' % fname, not bad, 'found: %s' % bad[:3])
     out += _gen_registry_src(tree, fns, un, ob)
     return out
 
